@@ -203,4 +203,9 @@ def r8(ctx):
     ctx.obligations = saved + ctx.obligations
 
 
-RULES = [("C07.R1", r1), ("C07.R2", r2), ("C07.R3", r3), ("C07.R4", r4), ("C07.R5", r5), ("C07.R6", r6), ("C07.R7", r7), ("C07.R8", r8)]
+def r9(ctx):
+    from .c09 import encoder_state_recorded_on_every_path
+    encoder_state_recorded_on_every_path(ctx, "C07.R9")
+
+
+RULES = [("C07.R1", r1), ("C07.R2", r2), ("C07.R3", r3), ("C07.R4", r4), ("C07.R5", r5), ("C07.R6", r6), ("C07.R7", r7), ("C07.R8", r8), ("C07.R9", r9)]
